@@ -5,6 +5,15 @@ import json, sys
 pid, wt = sys.argv[1], sys.argv[2]
 n = sys.argv[3] if len(sys.argv) > 3 else "2"
 p = [json.loads(l) for l in open('/verif/properties.jsonl') if json.loads(l)['id'] == pid][0]
+import glob, os
+studied = []
+if os.environ.get('MUT_ROUND2'):
+    for d in sorted(glob.glob(f'/verif/seeded/{pid}-m*/meta.json')):
+        m = json.load(open(d))
+        studied.append(f"  - {', '.join(m.get('files_changed', []))}: {m.get('summary', '')[:260]}")
+STUDIED = ""
+if studied:
+    STUDIED = "\nChanges already studied in an earlier round (produce DIFFERENT ones: another file, or another mechanism in the same file; do not vary these):\n" + "\n".join(studied) + "\n"
 print(f"""You are working in a scratch git worktree of the Go project prometheus/alertmanager at {wt} .
 Work ONLY inside that directory; never read or modify /repo or /verif or any other checkout.
 
@@ -26,9 +35,10 @@ Task: produce {n} different, independent changes ("mutations") to the non-test s
  (3) being realistic — the kind of defect a developer could plausibly introduce (refactoring slip, off-by-one, dropped lock or guard, reordered steps, wrong comparison or clock, cache/index not updated, error swallowed) — and
  (4) needing something SPECIFIC to manifest: a particular interleaving, a crash or fault at a particular point, a multi-step sequence of operations, an unusual input or boundary value, or two cooperating sites that each look fine alone. NOT something ordinary use would expose at once, and not something an existing unit test catches.
 Prefer mutations in different files/mechanisms from each other. Keep each patch small (a few lines).
+{STUDIED}
 
 For each mutation k (1..{n}) deliver, inside {wt}/mutation<k>/ :
   - patch.diff   : `git diff` of the source change only (no test files), applicable with `git apply` from the repository root of a clean checkout;
-  - a demonstration: a Go test file (name it zz_mutation_demo_test.go, put a copy in mutation<k>/ and say in meta.json in which package directory it must be placed) or a small program, that FAILS with the change applied and PASSES without it. Verify BOTH directions yourself (git stash / git checkout the source change) and record the exact commands and outcomes;
+  - a demonstration: a Go test file (name it zz_mutation_demo_test.go, put a copy in mutation<k>/ and say in meta.json in which package directory it must be placed) or a small program, that FAILS with the change applied and PASSES without it. Verify BOTH directions yourself (use `git apply` / `git apply -R` of your patch.diff; NEVER use `git stash`: the stash is shared with other checkouts) and record the exact commands and outcomes;
   - meta.json    : {{"property": "{p['id']}", "summary": ..., "files_changed": [...], "what_it_needs_to_manifest": ..., "demo": {{"place_at": "<pkg dir>/zz_mutation_demo_test.go", "command": "go test -vet=off -count=1 -run <Name> ./<pkg>/"}}, "suite_result": "...", "commands_run": [...]}}
 When done, leave the worktree's source files in their ORIGINAL state (git checkout -- . ; remove the demo test from the package dir) so only the mutation<k>/ directories remain as untracked files. Finish with a short report listing the mutations.""")
